@@ -42,7 +42,9 @@ Triples(s, S, a) == {<<s, src, a[src]>> : src \in S}
 \* make the other CORS settings observable: the switch is off, said by the environment (lowest explicit source)
 Ctx(s) == IF s \in CorsOther THEN {<<"all", "env", "false">>} ELSE {}
 
-Styles == {"plain", "comments_quotes", "reordered_spaces"}
+\* renderings of the same file content (all of them TOML): "tight" has no blanks around '=', comments glued to values and
+\* to the table header, a tab before a comment, an indented full-line comment and CRLF line endings
+Styles == {"plain", "comments_quotes", "reordered_spaces", "tight"}
 
 GInit ==
     \/ \E s \in Setting, S \in SUBSET Srcs : \E a \in Assignments(s, S) : \E st \in Styles :
